@@ -10,6 +10,7 @@ mod pool;
 mod net20;
 mod net21;
 mod ows;
+mod pws;
 mod sockio;
 mod sockopt;
 mod time;
@@ -19,6 +20,7 @@ pub fn lookup(name: &str) -> Option<AreaFn> {
     match name {
         "time" => Some(time::run),
         "ows" => Some(ows::run),
+        "pws" => Some(pws::run),
         "co" => Some(co::run),
         "conc" => Some(conc::run),
         "sched" => Some(sched::run),
